@@ -43,7 +43,24 @@ def history(g, rnd, ids):
                 insts.append(instgen.Inst(g.opv["CopyObject"], "CopyObject", t, rid, [instgen.Op("w", g.vix["IdRef"], rnd.choice(ids))]))
             if t in tracked:
                 tracked[rid] = tracked[t]
-        elif r < 0.55:
+        elif r < 0.53:
+            # instructions that have nothing to do with the rule (function structure, labels, stores): the types declared
+            # *after* them are tracked like those before; an OpFunction propagates its result type like any value definition
+            k = rnd.randrange(5)
+            if k == 0:
+                t, rid = rnd.choice(ids), rnd.choice(ids)
+                insts.append(instgen.Inst(g.opv["Function"], "Function", t, rid, [instgen.Op("w", g.vix["FunctionControl"], 0), instgen.Op("w", g.vix["IdRef"], rnd.choice(ids))]))
+                if t in tracked:
+                    tracked[rid] = tracked[t]
+            elif k == 1:
+                insts.append(instgen.Inst(g.opv["Label"], "Label", None, 7000 + rnd.randrange(50), []))
+            elif k == 2:
+                insts.append(instgen.Inst(g.opv["FunctionEnd"], "FunctionEnd", None, None, []))
+            elif k == 3:
+                insts.append(instgen.Inst(g.opv["Store"], "Store", None, None, [instgen.Op("w", g.vix["IdRef"], rnd.choice(ids)), instgen.Op("w", g.vix["IdRef"], rnd.choice(ids))]))
+            else:
+                insts.append(instgen.Inst(g.opv["Return"], "Return", None, None, []))
+        elif r < 0.56:
             # a non int/float type declaration does not track anything (and does not untrack)
             rid = rnd.choice(ids)
             insts.append(instgen.Inst(g.opv["TypeBool"], "TypeBool", None, rid, []))
